@@ -31,6 +31,24 @@ import tempfile
 import lib
 from props import schema_gen as sg
 
+# C18 depends on no generated table (coq/Model/History.v imports Model/Registry.v only).  A change in /repo that the
+# translator cannot digest for ANOTHER property's table (e.g. gen_locks refusing a Lock inside a conditional) must not
+# keep this check from exhibiting a concrete failing history: keep the tables as they are and carry on.  The checks
+# that own the tables still fail on it.
+_regen_tables = lib.regen_tables
+
+
+def _regen_tables_tolerant():
+    ok, out = _regen_tables()
+    if not ok:
+        lib.log("C18: translator failed, generated tables left as they are (none is used by C18):\n" + out[-600:])
+        return True, "translator failed (ignored for C18): " + out[-300:]
+    return ok, out
+
+
+lib.regen_tables = _regen_tables_tolerant
+
+
 def hx(s):
     b = s.encode() if isinstance(s, str) else s
     return b.hex() if b else "-"
@@ -190,6 +208,45 @@ def fam_chains():
     return [ca, c1, c2, dd, cb]
 
 
+def fam_typeerrs():
+    """every error path of Type.resolve over typedefs of a library module that arrives in three versions (and an
+    extension module that arrives late), so that a later load repairs, changes or introduces the error"""
+    def lib(rev, num, strt, dec, extra=""):
+        return module("tl", rev=rev, tds=["num", "str", "dec", "idr", "un"], body=
+                      "  typedef num { type %s }\n  typedef str { type %s }\n  typedef dec { type %s }\n"
+                      "  identity lbase;\n  typedef idr { type identityref { base lbase; } }\n"
+                      "  typedef un { type union { type num; type str; } }\n%s" % (
+                          tuple(t if t.endswith("}") else t + ";" for t in (num, strt, dec)) + (extra,)))
+    l0 = lib(None, "uint8", "string { length 1..10; }", "decimal64 { fraction-digits 2; }",
+             "  typedef gone { type int8; }\n")
+    l1 = lib(D1, "uint16", "string", "string", "  typedef late { type boolean; }\n")
+    l2 = lib(D2, "int32 { range 0..100; }", "string { length 8..40; pattern 'a.*'; }", "decimal64 { fraction-digits 3; }",
+             "  typedef late { type bits { bit a; bit b; } }\n  typedef gone { type enumeration { enum x; enum y; } }\n")
+    xn = module("xn", body="  extension ext { argument a; }\n")
+    uses = ("  %(k)s a%(s)s { type lib:num { range 1..300; } }\n"
+            "  %(k)s b%(s)s { type lib:str { length 5..20; } }\n"
+            "  %(k)s c%(s)s { type lib:dec { fraction-digits 3; } }\n"
+            "  %(k)s d%(s)s { type lib:gone; }\n"
+            "  %(k)s e%(s)s { type lib:late; }\n"
+            "  %(k)s f%(s)s { type lib:str { n:ext \"x\"; } }\n"
+            "  %(k)s g%(s)s { type lib:un; default 7; }\n"
+            "  %(k)s h%(s)s { type lib:idr; }\n"
+            "  %(k)s i%(s)s { type lib:dec { range 1..5; } }\n"
+            "  %(k)s j%(s)s { type lib:str { pattern '[0-9]+'; } }\n")
+    tds = ["a-t", "b-t", "c-t", "d-t", "e-t", "f-t", "g-t", "h-t", "i-t", "j-t"]
+    # the same type statements as typedefs (resolved even when an import is missing) and as leaf types
+    ut = module("te", imports=[("tl", "lib", None), ("xn", "n", None)], tds=tds, body=
+                uses % dict(k="typedef", s="-t") + "  leaf viatd { type f-t; }\n")
+    ul = module("tf", imports=[("tl", "lib", None), ("xn", "n", None)], body=uses % dict(k="leaf", s="-l"))
+    # one error path each, in small modules that stay clean otherwise
+    ue = module("tg", imports=[("xn", "n", None)], tds=["et"], body=
+                "  typedef et { type string { n:ext \"x\"; } }\n  leaf l { type et; }\n")
+    uf = module("th", imports=[("tl", "lib", None)], body="  leaf amount { type lib:dec { fraction-digits 3; } }\n")
+    ui = module("ti", imports=[("tl", "lib", D1)], tds=["pinned"], body=
+                "  typedef pinned { type lib:num { range 1..70000; } }\n  leaf p { type pinned; }\n")
+    return [l0, l1, l2, xn, ut, ul, ue, uf, ui]
+
+
 def fam_namespaces():
     n1 = module("n1", ns="urn:shared", body="  leaf a { type string; }\n  container c { leaf b { type int8; } }\n")
     n2 = module("n2", ns="urn:shared", body="  leaf z { type string; }\n")
@@ -203,7 +260,7 @@ def fam_random(rnd):
 
 
 FAMILIES = dict(typedefs=fam_typedefs, identities=fam_identities, revisions=fam_revisions, submodules=fam_submodules,
-                namespaces=fam_namespaces, chains=fam_chains)
+                namespaces=fam_namespaces, chains=fam_chains, typeerrs=fam_typeerrs)
 
 
 def make_pool(goods, rnd):
@@ -268,7 +325,9 @@ CORPUS = dict(
     typedefs=["L0,L2,L3,P,L1,P", "L4,P,L0,P,L1,P", "L3,P,L2,P,L0,P,P"],                    # D56 re-binding, late targets
     identities=["L2,P,L0,P,L1,P", "L3,L1,P,L0,P,P", "L0,L1,L2,L3,P,P"],                    # D56 memoised errors, D42
     chains=["L0,L1,P,L2,P,L3,P", "L4,L0,P,L1,P", "L2,L0,P,L3,P,L1,P"],                      # failing include, D41
-    revisions=["L4,L5,L6,P,L0,P,L1,P,L2,P", "L3,L4,P,L0,P", "L1,L4,P,L3,P,L2,P"],
+    revisions=["L4,L5,L6,P,L0,P,L1,P,L2,P", "L3,L4,P,L0,P", "L1,L4,P,L3,P,L2,P", "L1,P,L0,P,P"],   # older after newer
+    typeerrs=["L6,P,L3,P,P", "L0,L7,P,L1,P,L2,P", "L4,P,L0,P,L3,P,L1,P,L2,P", "L5,L3,L0,P,L1,P,L2,P",   # Type.resolve
+              "L8,L0,P,L1,P,L2,P", "L2,L4,L5,L3,P,L1,P,L0,P"],                                          # error paths
 )
 
 
